@@ -102,8 +102,14 @@ json generate(uint64_t seed, uint64_t idx, int tier)
 				json s = step(cl, r.chance(1, 2) ? "setvalidate" : "setprintfunc", 0);
 				s["name"] = r.pick(paths);
 				steps.push_back(s);
-			} else if (k < 95)
+			} else if (k < 94)
 				steps.push_back(step(cl, "print", 0));
+			else if (k < 95) {
+				// a search path: every section instance borrows the pointer, none may release it
+				json a = step(cl, "addpath", 0);
+				a["dir"] = r.chance(1, 2) ? "/a" : "/b";
+				steps.push_back(a);
+			}
 			else if (k < 97) {
 				// a single section removed and created again must come back with its declared defaults
 				std::vector<std::string> singles;
@@ -128,6 +134,13 @@ json generate(uint64_t seed, uint64_t idx, int tier)
 				steps.push_back(init);
 			}
 		}
+		// whatever free-form sections were filled meanwhile, an undeclared key at the top is still refused
+		for (int cl = 0; cl < 2; cl++)
+			if (r.chance(1, 2)) {
+				json p = parse_step(cl, 0, "buf", "nosuch_zz_key = 1\n");
+				p["unknownprobe"] = 1;
+				steps.push_back(p);
+			}
 		plan["params"] = {{"mode", "contexts"}};
 	} else {
 		json init = step(0, "init", 0);
@@ -273,6 +286,37 @@ JudgeOut judge(const json &plan)
 		if (c.compare(0, 12, "foreign-free") == 0)
 			out.viol.push_back({"library-freed-callers-memory", "the library released memory it does not own (" + c + "): the caller's declarations are not the library's to free", nullptr});
 	const json &steps = plan["steps"];
+	// an undeclared key is refused at the top of a context exactly as in a context that has seen nothing else
+	for (size_t i = 0; i < steps.size(); i++) {
+		if (!steps[i].value("unknownprobe", 0))
+			continue;
+		const OpResult *o = nullptr;
+		for (auto &x : r.ops)
+			if (x.index == (int)i)
+				o = &x;
+		const json *init = nullptr;
+		for (auto &s0 : steps)
+			if (s0["op"] == "init" && s0.value("cl", 0) == steps[i].value("cl", 0) && s0.value("c", 0) == steps[i].value("c", 0) && !s0.contains("falloc")) {
+				init = &s0;
+				break;
+			}
+		if (!o || o->skipped || !init)
+			continue;
+		json fresh = plan;
+		fresh["steps"] = json::array({*init, steps[i]});
+		fresh.erase("params");
+		RunResult fr = execute(fresh, eo);
+		add_exec_counters(out, fr);
+		if (fr.ops.size() < 2 || fr.died)
+			continue;
+		out.k.add("probe.undeclared_key_probe");
+		if ((o->ret == 0) != (fr.ops[1].ret == 0)) {
+			out.viol.push_back({"free-form-leak:undeclared_key", "an undeclared key at the top of the context is " + std::string(o->ret == 0 ? "accepted" : "refused") + " after the history but " +
+										   std::string(fr.ops[1].ret == 0 ? "accepted" : "refused") + " by a context that has seen nothing else: being free-form leaked from a section instance",
+					    nullptr});
+			break;
+		}
+	}
 	// a re-created single section equals the one cfg_init() created
 	{
 		std::map<int, json> init_tree;
